@@ -774,7 +774,7 @@ nnls_normal_block3(cholmod_sparse *AtA, cholmod_dense *Atb, int verbose,
         long nFprime, nGprime, nF_, nG_;
         int i, j, k;
         int iter, max_iter, solves, residual_calcs;
-        int feasible;
+        int feasible, optimal_on_F;
         clock_t t0, t1;
         double kkt_tolerance, y_min, residual;
 
@@ -807,6 +807,14 @@ nnls_normal_block3(cholmod_sparse *AtA, cholmod_dense *Atb, int verbose,
 
         nF = nG = nH1 = nH2 = 0;
         nGprime = -1;
+        /*
+         * True while x[F] is the solution of the unconstrained subproblem
+         * on F (trivially so for the initial empty F). A projected step
+         * along the descent vector leaves x short of that solution, and
+         * the subproblem has to be solved again before the dual variables
+         * can certify optimality.
+         */
+        optimal_on_F = true;
 
         t0 = clock();
 
@@ -918,7 +926,7 @@ nnls_normal_block3(cholmod_sparse *AtA, cholmod_dense *Atb, int verbose,
                  * If we've satisfied the KKT conditions, we're done. 
                  */
 
-                if (nH2 == 0) break;
+                if (nH2 == 0 && optimal_on_F) break;
 
                 ninf = nH1 + nH2;
 
@@ -1023,6 +1031,7 @@ nnls_normal_block3(cholmod_sparse *AtA, cholmod_dense *Atb, int verbose,
                                             ((double*)(x_F->x))[i];
                                 cholmod_l_free_dense(&x_F, c);
                                 feasible = true;
+                                optimal_on_F = true;
 
                                 if (verbose)
                                         printf("\tSolution entirely "
@@ -1089,6 +1098,7 @@ nnls_normal_block3(cholmod_sparse *AtA, cholmod_dense *Atb, int verbose,
                                 feasible = walk_descents(AtA_F, Atb_F, x, x_F,
                                     F, &nF, H1, &nH1, &residual,
                                     &residual_calcs, verbose, c);
+                                optimal_on_F = false;
 
                         } /* if (nF_inf == 0) */
 
